@@ -154,6 +154,41 @@ def one(cases, rng, tier, d, rep, dtname):
             cases.append(Case(J("sumsel", tt_tokens(A), len(idx), idx), impl, orcA, "sum/subset/ttm/" + tag, True))
 
 
+def qr_norm_tie(res, rng, tier):
+    """norm() on the QR branch (cores not tracked): the QR factorisation is replaced from outside by the exact integer oracle of checks/sweeps.py
+    (M = I·M or M·I); the data flow of the sweep — unfoldings, absorption of R, which core's norm is returned — then runs in exact integers and is
+    compared with Decomp.normSqQR / normSqQRM run on the same oracle (1e-12 relative: the code squares a square root at the end)."""
+    from checks.sweeps import FakePrims
+    from common import run_driver
+    from fractions import Fraction
+    lines, vals, labels = [], [], []
+    for c in range(16 if tier == "quick" else 120):
+        d = rng.randint(1, 4)
+        ttm = c % 3 == 2
+        N = [rng.randint(1, 3) for _ in range(d)]
+        M = [rng.randint(1, 2) for _ in range(d)] if ttm else None
+        x = rand_tt(rng, N, rand_ranks(rng, d, 3), tn.float64, M=M)
+        try:
+            with FakePrims(1000):
+                v = float(x.norm(True))
+        except Exception as e:
+            v = e
+        lines.append(J("normqr", tt_tokens(x))); vals.append(v); labels.append("norm-qr-sweep/%s/d%d" % ("ttm" if ttm else "tt", d))
+    outs = run_driver(lines)
+    for line, v, lab, mo in zip(lines, vals, labels, outs):
+        res.model_cases += 1
+        toks = mo.split()
+        ok = len(toks) == 2 and toks[0] == "sc" and not isinstance(v, Exception)
+        if ok:
+            mv = float(Fraction(toks[1].split(",")[0]))
+            ok = abs(mv - v) <= 1e-12 * max(1.0, abs(mv))
+        if ok:
+            res.core_equal += 1
+        else:
+            res.violation({"property": "C07", "kind": "correspondence", "class": lab, "case": line[:1200], "impl_outcome": repr(v)[:200], "model_outcome": mo[:200],
+                           "note": "norm() run with an exact integer QR oracle differs from Decomp.normSqQR on the same oracle"}, no_input=True)
+
+
 def run(res, rng, tier, known):
     from common import run_cases
     cases = []
@@ -166,6 +201,7 @@ def run(res, rng, tier, known):
             one(cases, rng, tier, d, rep, dts[ci % 3]); ci += 1
     rng.shuffle(cases)
     run_cases(res, cases, known)
+    qr_norm_tie(res, rng, tier)
     return {"level": LEVEL, "rule": RULE, "assumptions": ASSUMPTIONS,
             "not_by_theorem": ["norm() through the QR sweep (float; compared numerically against the exact Gram value, QR contract trusted)",
                                "sqrt in norm(); float roundoff"]}
